@@ -35,7 +35,7 @@ UI_PAGE_SIZES = {1: 120, 2: 79, 3: 40, 4: 28}       # 109-byte UI message -> 1..
 AUTH_LENS = [0, 1, 32, 1000]
 CHAIN_LENS = [2, 3]
 # boundary values for the bytes that directly follow a textual header / end a message
-EDGE_BYTES = [0x30, 0x39, 0x3a, 0x0a, 0x00, 0xff]
+EDGE_BYTES = [0x30, 0x39, 0x3a, 0x0a, 0x00, 0x07, 0xff]
 
 # field -> oracle class.  must-fail: a byte the device signed / committed to by a signed hash,
 # a signature, a key of the chain, TBS or signature of a certificate, the root of trust.
@@ -195,9 +195,15 @@ class C15(Check):
                           for lg in (False, True)}
         self.platforms = {(a, c): SgxPlatform(Rng("c15-sgx-%d-%d" % (a, c)), a, c)
                           for a in AUTH_LENS for c in CHAIN_LENS}
+        # devices whose printed values start with 00 / a zero nibble / are all zero / all ff
+        for prof in L.VALUE_PROFILES[1:]:
+            for lg in (False, True):
+                self.factories[(lg, prof)] = LedgerFactory(Rng("c15-ledger-%s" % lg),
+                                                           legacy_signer=lg, profile=prof)
+            self.platforms[(32, 3, prof)] = SgxPlatform(Rng("c15-sgx-32-3"), 32, 3, profile=prof)
         self.ud = Rng("c15-ud").nz_bytes(32)
         # wallets (last key varied) whose public-keys hash starts / ends with each boundary byte
-        self.salts = {lg: self.find_salts(f) for lg, f in self.factories.items()}
+        self.salts = {lg: self.find_salts(self.factories[lg]) for lg in (False, True)}
         base = "/dev/shm" if os.path.isdir("/dev/shm") else None
         self.dir = tempfile.mkdtemp(prefix="verif-c15-", dir=base)
         owner = os.getpid()
@@ -231,7 +237,14 @@ class C15(Check):
                     out["kh-%s-%02x" % key] = salt
         return out
 
+    def platform_of(self, cfg):
+        if cfg.get("values") is None:
+            return self.platforms[(cfg["auth"], cfg["chain"])]
+        return self.platforms[(cfg["auth"], cfg["chain"], cfg["values"])]
+
     def ud_for(self, cfg):
+        if cfg.get("values") is not None:
+            return L.shape(self.ud, cfg["values"])
         b = cfg.get("ud")
         return self.ud if b is None else bytes([b]) + self.ud[1:-1] + bytes([b])
 
@@ -273,6 +286,8 @@ class C15(Check):
                 cs.append({"kind": "sgx", "cfg": cfg, "field": "root-der"})
                 cs.append({"kind": "sgx", "cfg": cfg, "field": "pages"})
                 cs.append({"kind": "sgx", "cfg": cfg, "field": "pubkey-swap"})
+        for prof in L.VALUE_PROFILES[1:]:
+            cs.append({"kind": "value-shapes", "values": prof})
         return cs
 
     def replay(self, case, choices):
@@ -308,11 +323,19 @@ class C15(Check):
                 cfg = dict(case["cfg"], ud=case["byte"], keys=keys)
                 self.execute("ledger", cfg, None, "genuine", stats, vs)
             return vs
+        if k == "value-shapes":
+            for legacy in (False, True):
+                for pages in (1, 2, 3, 4):
+                    self.execute("ledger", {"pages": pages, "legacy": legacy,
+                                            "values": case["values"]}, None, "genuine", stats, vs)
+            self.execute("sgx", {"auth": 32, "chain": 3, "values": case["values"]}, None,
+                         "genuine", stats, vs)
+            return vs
         if k == "sgx-edges":
             for b in EDGE_BYTES:
                 self.execute("sgx", dict(case["cfg"], ud=b), None, "genuine", stats, vs)
             # two genuine devices one after the other in one process, same file locations
-            for other in sorted(self.platforms):
+            for other in sorted(k2 for k2 in self.platforms if len(k2) == 2):
                 if other != (case["cfg"]["auth"], case["cfg"]["chain"]):
                     self.execute("sgx", {"auth": other[0], "chain": other[1]}, None, "genuine",
                                  stats, vs)
@@ -350,7 +373,7 @@ class C15(Check):
         # sgx: the alterations follow a successful run on the same file locations
         if self.execute(k, cfg, None, "genuine", Stats(), []) is None:
             return vs
-        plat = self.platforms[(cfg["auth"], cfg["chain"])]
+        plat = self.platform_of(cfg)
         f = plat.enclave.fields(plat.message(self.ud_for(cfg)))
         if field == "pages":
             counts = {"msg": (len(f["custom_message"]) + 78) // 79,
@@ -500,7 +523,8 @@ class C15(Check):
     # -- Ledger ------------------------------------------------------------------------------
     def run_ledger(self, cfg, alter):
         m = self.m
-        fac = self.factories[bool(cfg["legacy"])]
+        fac = self.factories[bool(cfg["legacy"]) if cfg.get("values") is None
+                             else (bool(cfg["legacy"]), cfg["values"])]
         ud = self.ud_for(cfg)
         it = None if cfg.get("ud") is None else (fac.signer_iteration & 0xff00) | cfg["ud"]
         dev = GenuineLedger(fac, UI_PAGE_SIZES[cfg["pages"]], check_host=alter is None,
@@ -625,7 +649,7 @@ class C15(Check):
     # -- SGX ---------------------------------------------------------------------------------
     def run_sgx(self, cfg, alter):
         m = self.m
-        plat = self.platforms[(cfg["auth"], cfg["chain"])]
+        plat = self.platform_of(cfg)
         ud = self.ud_for(cfg)
         dev = GenuineSgx(plat)
         if alter is not None and alter["kind"] != "root-der":
